@@ -921,6 +921,17 @@ func (tw *c16Twin) finish() {
 	if len(tw.demoTraces) > 0 {
 		e.rep.Count("demonstrated:voucher-stuck-after-reimport")
 	}
+	// the client sub-stores of the re-imported chains hold the same keys on both networks at the end
+	if !tw.desync && !tw.loose {
+		for i := range tw.reimported {
+			ka, kb := c16ClientKeys(tw.a.chains[i]), c16ClientKeys(tw.b.chains[i])
+			if ka != kb {
+				e.rep.Fail("C16:continuation-differs", "after the same history the original and the re-imported chain hold different client-store keys (consensus states / metadata)",
+					map[string]any{"case": tw.name, "chain": i, "original": ka, "reimported": kb})
+			}
+		}
+		e.rep.Count("twin:client-store-keys-compared")
+	}
 	var steps []string
 	first := len(tw.b.steps) // index of the first re-import: the history before it is compared by verdict only
 	for k := range tw.marks {
